@@ -385,38 +385,69 @@ theorem history_is_one_run (env : Env) (seed : List Comp) (ops : List Op) :
   exact foldl_applyOp env ops ⟨St.init seed, addObserver evalObs []⟩ (addObserver_nodup evalObs [] List.nodup_nil)
     (addObserver_mem evalObs [])
 
-/-- hence, when no rule is fired twice over the whole history (evaluations of disjoint rule sets, any number of
-re-entries), every rule is accounted for exactly as in a single evaluation: `outcome_exclusive` carries over -/
-theorem history_reported_once (env : Env) (seed : List Comp) (ops : List Op) (rules : List Rule)
-    (hall : allFired ops = rules.map (·, true)) (h : Fresh seed rules)
-    (r : Rule) (f : Final) (hmem : (r, f) ∈ finals env seed rules) :
-    tally (runHistory env seed (.register evalObs :: ops)).st r.id = f.tally := by
-  rw [history_is_one_run, hall, foldl_stepG_all_in_graph]
-  exact outcome_exclusive env seed rules h r f hmem
-
-/-- the full statement: in every history whose single runs are proper graphs, nothing is listed twice -/
+/-- `HistoryReportedOnce`, the full statement: over EVERY history of register / run operations on one evaluator —
+any run orders, rules met again by later runs, rules fired only as dependencies, any number of registrations, even
+several identities for one rule — no component is listed more than once (entries under all headings, skip entries,
+metadata merges and metadata keys together) -/
 def HistoryReportedOnce : Prop :=
-  ∀ (env : Env) (seed : List Comp) (ops : List Op) (id : Comp),
-    (∀ fired, Op.run fired ∈ ops → (fired.map (·.1.id)).Nodup ∧ ∀ f ∈ fired, f.1.id ∉ seed) →
-    let t := tally (runHistory env seed (.register evalObs :: ops)).st id
-    t.results + t.skips + t.metadata + t.mdKeys ≤ 1
+  ∀ (env : Env) (seed : List Comp) (ops : List Op) (id : Comp), listed (runHistory env seed ops).st id ≤ 1
+
+theorem history_reported_once : HistoryReportedOnce :=
+  fun env seed ops id => (listInv_runHistory env seed ops id).1
+
+/-- … and nothing is listed for a component the observer has not dealt with -/
+theorem history_listed_only_if_handled (env : Env) (seed : List Comp) (ops : List Op) (id : Comp)
+    (h : id ∉ (runHistory env seed ops).st.handled) : listed (runHistory env seed ops).st id = 0 :=
+  (listInv_runHistory env seed ops id).2 h
+
+/-- a history is ONE pass over its effective run order (`effective`: each rule the first time it is fired as a key
+of a graph; later firings and dependency-only firings are dropped): everything but the exception log — broker
+values, results, skips, metadata, metadata keys — is what a single evaluation of that de-duplicated order leaves.
+(The exception log is excluded because a rule that raises is run, and raises, again on every evaluation.) -/
+theorem history_is_single_pass (env : Env) (hcfg : WFCfg env.cfg) (seed : List Comp) (ops : List Op)
+    (hcons : Consistent ((allFired ops).map (·.1))) (hseed : ∀ f ∈ allFired ops, f.1.id ∉ seed) :
+    forget (runHistory env seed (.register evalObs :: ops)).st = forget (run env seed (effective [] (allFired ops))) ∧
+    Fresh seed (effective [] (allFired ops)) := by
+  constructor
+  · rw [history_is_one_run]
+    exact sim_fold env hcfg seed (allFired ops) [] _ _ (sim_init env seed) (by simpa using hcons) hseed
+  · obtain ⟨a, _, c⟩ := effective_fresh seed (allFired ops) [] hseed
+    exact ⟨a, c⟩
+
+/-- hence every rule of a history is listed exactly as its ONE outcome in that single pass says
+(`outcome_exclusive` carried over to histories) -/
+theorem history_outcomes (env : Env) (hcfg : WFCfg env.cfg) (seed : List Comp) (ops : List Op)
+    (hcons : Consistent ((allFired ops).map (·.1))) (hseed : ∀ f ∈ allFired ops, f.1.id ∉ seed)
+    (r : Rule) (f : Final) (hmem : (r, f) ∈ finals env seed (effective [] (allFired ops))) :
+    (tally (runHistory env seed (.register evalObs :: ops)).st r.id).results = f.tally.results ∧
+    (tally (runHistory env seed (.register evalObs :: ops)).st r.id).skips = f.tally.skips ∧
+    (tally (runHistory env seed (.register evalObs :: ops)).st r.id).metadata = f.tally.metadata ∧
+    (tally (runHistory env seed (.register evalObs :: ops)).st r.id).mdKeys = f.tally.mdKeys := by
+  obtain ⟨hf, hfresh⟩ := history_is_single_pass env hcfg seed ops hcons hseed
+  have ht := outcome_exclusive env seed _ hfresh r f hmem
+  have e : ∀ st : St, (tally st r.id).results = (tally (forget st) r.id).results ∧
+      (tally st r.id).skips = (tally (forget st) r.id).skips ∧
+      (tally st r.id).metadata = (tally (forget st) r.id).metadata ∧
+      (tally st r.id).mdKeys = (tally (forget st) r.id).mdKeys := fun _ => ⟨rfl, rfl, rfl, rfl⟩
+  obtain ⟨e1, e2, e3, e4⟩ := e (runHistory env seed (.register evalObs :: ops)).st
+  obtain ⟨g1, g2, g3, g4⟩ := e (run env seed (effective [] (allFired ops)))
+  rw [e1, e2, e3, e4, hf, ← g1, ← g2, ← g3, ← g4, ht]
+  exact ⟨rfl, rfl, rfl, rfl⟩
 
 def rerunRule : Rule :=
   ⟨1, "pkg.mod.report".toList, some "mod".toList, [], none, [], [], [], true, .ret c_make_fail (.str "K".toList) []⟩
 
+/-- non-vacuity: a history that evaluates the same graph twice meets the hypotheses; its effective order is the rule
+once, and the rule is listed once (before the repair 35ad880 it was listed twice) -/
+example : Consistent ((allFired [.run [(rerunRule, true)], .run [(rerunRule, true)]]).map (·.1)) := by
+  intro a ha b hb _
+  simp only [allFired, List.cons_append, List.nil_append, List.map_cons, List.map_nil, List.mem_cons,
+    List.not_mem_nil, or_false, or_self] at ha hb
+  rw [ha, hb]
+example : (effective [] (allFired [.run [(rerunRule, true)], .run [(rerunRule, true)]])).map (·.id) = [1] := by decide
 set_option maxRecDepth 100000 in
-/-- … is false of the current code: run_components fires the observers for every component of the run order, also
-for those already in the broker, and the evaluator's observer handles whatever is in the broker — a second
-evaluation that meets an already evaluated rule lists it again (known finding rerun-reobserves) -/
-theorem history_rerun_witness : ¬ HistoryReportedOnce := by
-  intro h
-  have := h ⟨cfg, 65535, false, fun _ => []⟩ [] [.run [(rerunRule, true)], .run [(rerunRule, true)]] 1 (by
-    intro fired hf
-    simp only [List.mem_cons, Op.run.injEq, List.not_mem_nil, or_false, or_self] at hf
-    subst hf
-    exact ⟨by decide, by intro f hf; simp⟩)
-  revert this
-  decide
+example : listed (runHistory ⟨cfg, 65535, false, fun _ => []⟩ []
+    [.register evalObs, .run [(rerunRule, true)], .register evalObs, .run [(rerunRule, true)]]).st 1 = 1 := by decide
 
 /-! ### get_response -/
 
